@@ -58,6 +58,9 @@ type FileUpload struct {
 	// set by SetFileReader: the content can be read only once (the reader cannot be
 	// rewound, or is closed after the first upload), so the request must not be retried
 	unreplayable bool
+	// set by SetFileReader: GetFileContent itself puts the reader back where the content
+	// starts (not necessarily offset 0), so the multipart writer must not seek it on a retry
+	selfRewinding bool
 }
 
 // UploadInfo is the information for each UploadCallback call.
